@@ -68,12 +68,12 @@ enum {
   OP_SWAP = OP_MOVECTOR0 + 2,
   OP_COPYDOC0,                        // Di.CopyFrom(Dj, Di.alloc, copyString): 2 x 2
   OP_COPYINTO0 = OP_COPYDOC0 + 4,     // Di.first-child.CopyFrom(Dj root): 2
-  OP_MUT0 = OP_COPYINTO0 + 2,         // per doc: 8 mutations
-  OP_DESTROY0 = OP_MUT0 + 2 * 8,      // 2
+  OP_MUT0 = OP_COPYINTO0 + 2,         // per doc: 10 mutations
+  OP_DESTROY0 = OP_MUT0 + 2 * 10,     // 2
   OP_RECREATE0 = OP_DESTROY0 + 2,     // 2
   OP_COUNT = OP_RECREATE0 + 2
 };
-static const char* kMutNames[8] = {"AddMember(\"n\",copy\"owned\")", "PushBack(copy\"owned\")", "SetString(copy)", "RemoveMember(\"a\")", "CreateMap", "root[first]=move(root)", "Clear", "EraseFirst"};
+static const char* kMutNames[10] = {"AddMember(\"n\",copy\"owned\")", "PushBack(copy\"owned\")", "SetString(copy)", "RemoveMember(\"a\")", "CreateMap", "root[first]=move(root)", "Clear", "EraseFirst", "Reserve(8)", "RemoveLast(PopBack/RemoveMember)"};
 
 struct DocSim {
   std::unique_ptr<TrackDoc> d[2];
@@ -116,7 +116,7 @@ struct DocSim {
     if (op < OP_MUT0) return D(op - OP_COPYINTO0) + ".first.CopyFrom(" + D(1 - (op - OP_COPYINTO0)) + ")";
     if (op < OP_DESTROY0) {
       unsigned q = op - OP_MUT0;
-      return D(q / 8) + "." + kMutNames[q % 8];
+      return D(q / 10) + "." + kMutNames[q % 10];
     }
     if (op < OP_RECREATE0) return "destroy " + D(op - OP_DESTROY0);
     return "recreate " + D(op - OP_RECREATE0);
@@ -142,7 +142,7 @@ struct DocSim {
       return ((v.k == ref::Arr && !v.a.empty()) || (v.k == ref::Obj && !v.o.empty())) && nodes(m[0]) + nodes(m[1]) <= 40;
     }
     if (op < OP_DESTROY0) {
-      unsigned q = op - OP_MUT0, i = q / 8, k = q % 8;
+      unsigned q = op - OP_MUT0, i = q / 10, k = q % 10;
       if (!alive[i]) return false;
       const ref::Value& v = m[i];
       switch (k) {
@@ -154,6 +154,8 @@ struct DocSim {
         case 5: return (v.k == ref::Arr && !v.a.empty());
         case 6: return v.isContainer();
         case 7: return (v.k == ref::Arr && !v.a.empty()) || (v.k == ref::Obj && !v.o.empty());
+        case 8: return v.isContainer();
+        case 9: return (v.k == ref::Arr && !v.a.empty()) || (v.k == ref::Obj && !v.o.empty());
       }
       return false;
     }
@@ -238,7 +240,7 @@ struct DocSim {
       first.CopyFrom(*d[j], d[i]->GetAllocator(), true);
       (m[i].k == ref::Arr ? m[i].a[0] : m[i].o[0].second) = m[j];
     } else if (op < OP_DESTROY0) {
-      unsigned q = op - OP_MUT0, i = q / 8, k = q % 8;
+      unsigned q = op - OP_MUT0, i = q / 10, k = q % 10;
       TrackDoc& D = *d[i];
       auto& al = D.GetAllocator();
       switch (k) {
@@ -277,6 +279,26 @@ struct DocSim {
           } else {
             D.EraseMember(D.MemberBegin(), D.MemberBegin() + 1);
             m[i].o.erase(m[i].o.begin());
+          }
+          break;
+        case 8:  // an empty or non-empty container that owns a buffer of its own
+          if (D.IsArray())
+            D.Reserve(8, al);
+          else
+            D.MemberReserve(8, al);
+          break;
+        case 9:  // removing the last child keeps the (now possibly empty) container's buffer
+          if (D.IsArray()) {
+            D.PopBack();
+            m[i].a.pop_back();
+          } else {
+            std::string lastk = m[i].o.back().first;
+            // remove by key: the model removes the FIRST member with that key and moves the last into the hole
+            size_t fi = 0;
+            while (m[i].o[fi].first != lastk) fi++;
+            D.RemoveMember(lastk);
+            if (fi != m[i].o.size() - 1) m[i].o[fi] = m[i].o.back();
+            m[i].o.pop_back();
           }
           break;
       }
